@@ -4,6 +4,8 @@ from .base import StdCheck
 
 MULT = "api_multiplicity_independent"
 MULT_KNOWN = "clause=" + MULT + " shape=per_disjunct"
+PERM = "api_fastpath_independent"
+PERM_KNOWN = "clause=" + PERM + " shape=perm_raises"
 
 
 # Harmless rewrites on which the check stays green (diffs: corpus/C16/negative_controls/, each run through the whole flow
@@ -24,6 +26,10 @@ SEEDED_CHANGES = [
     "m3 API fast path without the collision check (revert of 77a9c63): spec api_fastpath_independent",
     "m4 GetComparedName also accepts `!=`: spec fastpath_independent / api_fastpath_independent",
     "m5 GetTargetService does not require the service comparison: spec fastpath_independent / api_fastpath_independent",
+    "C16-10 CheckMatches drops rules without a match from the registry after a commit: spec commit_stage_independent (two-stage commit)",
+    "C16-11 one ScriptFrame per host shared by all apply Service rules: spec order_independent / no_missing_object (a global constant "
+    "named like another rule's loop or closure variable)",
+    "C16-12 API fast path without EvaluatePermissionFilter: spec api_fastpath_independent / api_no_extra (restricted ApiUser)",
 ]
 
 
@@ -36,7 +42,9 @@ class C16(StdCheck):
                          "indexed_full_eq_plain_full", "extended_services", "apply_exactly_matching_full",
                          "order_independent_full", "statement_order_independent", "statement_permutation",
                          "statement_order_counterexample", "api_multiplicity_partial", "api_multiplicity_counterexample",
-                         "model_load_meets_spec", "model_api_meets_spec", "model_api_meets_spec_partial"]
+                         "model_load_meets_spec", "model_api_meets_spec", "model_api_meets_spec_partial",
+                         "staged_commit_eq_single", "staged_commit_eq_plain", "api_permission_fast_path_partial",
+                         "api_permission_fast_path_counterexample", "api_permission_respected", "model_api_perm_meets_spec_partial", "rule_scope_only_own", "rule_isolation"]
     technique = ("Lean 4 proof (soundness/completeness of the filter-shape recogniser by induction on the recognised shape; refinement "
                  "'indexed = plain' as sets via a per-(rule,target) equivalence of outcomes; set comprehension characterisation of plain "
                  "evaluation) over a hand-written model of ApplyRule::AddTargetedRule/GetTargetHosts/GetTargetServices, "
@@ -45,7 +53,10 @@ class C16(StdCheck):
                  "process per configuration and variant (as written / every assign filter wrapped as `(F) && true` / Concurrency 1 and 16 / "
                  "the text permuted: rules, assign-ignore statements inside each rule and objects in reverse order) "
                  "and by FilterUtility::GetFilterTargets with and without the wrap, plus the same two filters through "
-                 "HttpHandler::ProcessRequest -> ObjectQueryHandler / ActionsHandler (number of results)")
+                 "HttpHandler::ProcessRequest -> ObjectQueryHandler / ActionsHandler (number of results), ~25 % of the queries as an ApiUser "
+                 "whose permission carries a filter function; and by a two-stage commit in one process (a subset of the hosts/services is "
+                 "committed after the rules and the other objects with an ActivationContext of its own, the way ConfigObjectUtility::CreateObject "
+                 "commits a runtime-created object)")
     level_text = ("Machine-checked theorems (Lean 4 kernel), for every filter of the modelled language (literals, variables, indexer, ==, !=, "
                   "&&, ||, !, arbitrary opaque sub-expressions), every rule list, inventory and environment, no size bounds: whenever "
                   "GetTargetHosts/GetTargetServices extract a name list the filter evaluates - without raising - to 'target is in the list' "
@@ -62,17 +73,33 @@ class C16(StdCheck):
                   "evaluation (api_fast_path_eq_plain, unconditional since commit 77a9c63 removed F-C16c: no fast path when a filter_vars key is a "
                   "name the evaluator binds itself) and the same NUMBER of entries - hence of object-query results and action invocations - when the "
                   "looked-up names are pairwise distinct (api_multiplicity_partial, model_api_meets_spec_partial); otherwise not "
-                  "(api_multiplicity_counterexample = known finding F-C16d, reproduced through the real HTTP handlers). The model is tied to the code by "
+                  "(api_multiplicity_counterexample = known finding F-C16d, reproduced through the real HTTP handlers); committing any part of "
+                  "the inventory in a second stage against the same rule registry is accepted exactly when the single commit is and creates the same "
+                  "set of objects, cascade included (staged_commit_eq_single, staged_commit_eq_plain; the staged load is part of the model's trace "
+                  "in model_load_meets_spec, clause commit_stage_independent); for an ApiUser whose permission filter admits an arbitrary set of "
+                  "objects - and raises on none - the fast path (looked-up objects passed through the permission filter) and evaluation (permission "
+                  "filter, then user filter, per object) return the same set and the model meets the restricted-user spec "
+                  "(api_permission_fast_path_partial, model_api_perm_meets_spec_partial); a permission filter that raises on an object the query "
+                  "does not name fails the evaluated query but not the fast path (api_permission_fast_path_counterexample = known finding F-C16e); "
+                  "no object the permission filter does not admit is ever returned on either path, raising or not (api_permission_respected); every rule is evaluated in a scope "
+                  "of its own: a name that is not one of the rule's own loop variables, host/service or its own closure variables resolves to the "
+                  "global of that name whatever other rules bound for the same target, and what a rule creates does not depend on which other rules "
+                  "are loaded with it (rule_scope_only_own, rule_isolation). The model is tied to the code by "
                   "loading thousands of generated configurations (4 source types x Host/Service targets, for-loops over arrays/dictionaries, "
                   "ignore where, constants, filters concentrated on the recognised shapes and their near misses) and comparing the created "
                   "objects (type, name, loop variables, target seen by the body) with the model in both variants; the same specification "
-                  "predicate (fast-path independence, parallel independence, order independence incl. the statements inside a rule, exactly the "
+                  "predicate (fast-path independence, parallel independence, commit-stage independence, order independence incl. the statements inside a rule, exactly the "
                   "matching triples - `assign true and ignore not` read over the whole rule whatever the statement order -, target in scope, API "
                   "set and multiplicity independence) is evaluated on the implementation's own observations")
     level_note = ("Trusted: Lean kernel (+ propext, Classical.choice, Quot.sound), harness/driver, the sampled correspondence. The values of "
                   "opaque sub-expressions (custom variables, groups, function calls) per target are oracle inputs evaluated by the real "
                   "interpreter. Not modelled: evaluation of the rule body beyond the recorded loop variables/target names, name collisions "
-                  "between created objects (the driver rejects such cases explicitly), ignore_on_error, zones/packages, permission filters (C18), "
+                  "between created objects (the driver rejects such cases explicitly), ignore_on_error, zones/packages; WHICH objects an ApiUser's "
+                  "permission filter admits - or on which it raises - is an oracle input (evaluated per object by the real "
+                  "FilterUtility::EvaluateFilter), how GetFilterTargets combines it with the fast path is modelled, errors included. F-C16e "
+                  "(known): the driver tags an api_fastpath_independent failure `shape=perm_raises` only when the permission filter raises on "
+                  "some object and both observed answers equal the model's; any other difference is reported; "
+                  "the second stage of the staged commit contains hosts/services only (no new rules; never the Dependency parent zp); "
                   "opaque atoms on services that exist only through apply Service (the generator uses none there). The set of navigation fields "
                   "of Host/Service is an input read from the implementation's type reflection on every case (a new field is not an alarm); the "
                   "API theorems assume only NavOk (`host`/`service` denote the target), which the driver checks on that reflection. "
@@ -106,8 +133,11 @@ class C16(StdCheck):
             "expressions with opaque atoms; ignore where in ~25 %, in 30 % of those a further assign where below it; the assign/ignore statements "
             "of half of the rules with several statements are shuffled (every interleaving); each configuration loaded as written and wrapped, "
             "Concurrency 1 (and 16 on every 3rd case; always in thorough), and with the text permuted (as written on every case, wrapped on "
-            "every 3rd), plus 0-4 API queries (fast vs wrapped; sets from GetFilterTargets, counts also through GET /v1/objects/<type> and POST "
-            "/v1/actions/reschedule-check) with filter_vars, ~8 % of them with a key that evaluation binds itself (obj, the type "
+            "every 3rd), and - 70 % of the cases - committed in two stages (a random non-empty subset of the hosts with their services, sometimes a "
+            "single service of an early host, after everything else); ~12 % of the cases define global constants named like the rules' loop "
+            "variables (k, v) and closure variable (ux) and let filters of other rules read them; plus 0-4 API queries (fast vs wrapped; sets from GetFilterTargets, counts also through GET /v1/objects/<type> and POST "
+            "/v1/actions/reschedule-check), ~25 % of them from a restricted ApiUser (permission filter: name lists, their negation, random "
+            "expressions), with filter_vars, ~8 % of them with a key that evaluation binds itself (obj, the type "
             "name, every navigation field of the type as read from the type reflection at run time, which also feeds the model's World.navNames; "
             "inventory objects have check_period/event_command/command_endpoint set on some). evaluations = (rule, target) filter "
             "evaluations of the model's plain semantics + API per-object evaluations; a case is non-trivial when an apply rule created an "
@@ -138,17 +168,31 @@ class C16(StdCheck):
                     res.spec_failures.append(runner.Finding("spec", f"spec:{self.prop}:{MULT}", shown,
                                                             {"driver": l, "shape": "per_disjunct"}))
                 continue
+            if l.startswith("SPECFAIL") and PERM_KNOWN in l:
+                # F-C16e: same treatment (one witness shrunk, the others counted)
+                self._praise = getattr(self, "_praise", 0) + 1
+                if not getattr(self, "_praise_done", False):
+                    self._praise_done = True
+                    kv = core.parse_kv(l)
+                    case = runner.extract_case(save, int(kv["case"]), self.case_start)
+                    shown = self.shrink(harness, driver, case, "SPECFAIL", PERM_KNOWN)
+                    res.spec_failures.append(runner.Finding("spec", f"spec:{self.prop}:{PERM}", shown,
+                                                            {"driver": l, "shape": "perm_raises"}))
+                continue
             rest.append(l)
         super().collect(res, rest, save, harness, driver)
 
     def correspondence(self, tier, seed, harness, driver):
         self._dups, self._dup_done = 0, False
+        self._praise, self._praise_done = 0, False
         res = super().correspondence(tier, seed, harness, driver)
         st = res.stats
         need = {"rules_targeted": 100, "rules_regular": 100, "created_by_index": 50, "api_recognised": 20,
                 "rules_for": 50, "rules_ignore": 20, "cascade_cases": 20, "rules_use": 50,
                 "bound_checked": 100, "api_collide_nav": 50, "api_collide_recognised": 50,
-                "perm_runs": 100, "rules_assign_after_ignore": 100, "api_counts": 100}
+                "perm_runs": 100, "rules_assign_after_ignore": 100, "api_counts": 100,
+                "late_runs": 500, "late_only_rules": 100, "late_only_indexed_rules": 30, "shared_name_reads": 30,
+                "api_perm": 200, "api_perm_denied_named": 30}
         short = {k: st.get(k, 0) for k, v in need.items() if st.get(k, 0) < v}
         if short:
             raise core.TieBroken("harness:c16:coverage", f"generator no longer reaches: {short}")
@@ -156,8 +200,9 @@ class C16(StdCheck):
             raise core.TieBroken("model:c16:diverge", "the model's indexed and plain semantics differ on a generated case although "
                                  f"indexed_eq_plain / api_fast_path_eq_plain are proved: {st}")
         # a multiplicity failure of any other shape is reported before the known one (the runner reports one finding per clause)
-        res.spec_failures.sort(key=lambda f: f.detail.get("shape") == "per_disjunct")
+        res.spec_failures.sort(key=lambda f: f.detail.get("shape") in ("per_disjunct", "perm_raises"))
         res.extra["known_f_c16d_occurrences"] = self._dups
+        res.extra["known_f_c16e_occurrences"] = self._praise
         return res
 
     @staticmethod
@@ -171,6 +216,8 @@ class C16(StdCheck):
         counts are the model's: one entry per disjunct that names an existing object), and on every A line of the minimised witness
         that shows a difference the two SETS agree, the evaluated filter returns every object once and the fast path, the object query
         and the action handler return the same surplus."""
+        if entry.get("classifier") == "c16_api_perm_raises":
+            return self._matches_perm_raises(finding)
         if entry.get("classifier") != "c16_api_dup_per_disjunct":
             return False
         if finding.kind != "spec" or finding.what != f"spec:{self.prop}:{MULT}" or finding.detail.get("shape") != "per_disjunct":
@@ -191,6 +238,26 @@ class C16(StdCheck):
             if not (o.get("fast") == o.get("slow") and o["slow"].startswith("ok:") and ns == len(names) and ns >= 1
                     and dups >= 1 and nf == ns + dups and o.get("qf") == str(nf) and o.get("af") == str(nf)
                     and o.get("qs") == str(ns) and o.get("as") == str(ns)):
+                return False
+        return differing >= 1
+
+    def _matches_perm_raises(self, finding):
+        """F-C16e, narrowly: the finding is api_fastpath_independent in the shape the driver tagged `perm_raises` (the permission
+        filter raises on an object, both observed answers are the model's), and on every A line of the minimised witness whose two
+        answers differ the query comes from a restricted user (p=), the permission filter raises on some object (E in pb=), the
+        evaluated query failed (slow=err, 404 from the handlers) and the fast path answered without an error."""
+        if finding.kind != "spec" or finding.what != f"spec:{self.prop}:{PERM}" or finding.detail.get("shape") != "perm_raises":
+            return False
+        differing = 0
+        for l in finding.case_lines:
+            if not l.startswith("A "):
+                continue
+            o = self._obs(l)
+            if o.get("fast") == o.get("slow"):
+                continue
+            differing += 1
+            if not (" p=" in l.split(" | ", 1)[0] and "E" in o.get("pb", "") and o.get("slow") == "err"
+                    and o.get("fast", "").startswith("ok:") and o.get("qs", "").startswith("e") and o.get("as", "").startswith("e")):
                 return False
         return differing >= 1
 
